@@ -314,6 +314,10 @@ pub fn replay(driver: &str, case: &serde_json::Value) -> Result<(Outcome, Option
 pub enum ShellKind {
     /// case TEXT in P1) ;; P2) ;; *) ;; esac
     Case,
+    /// case TEXT in P1|P2|...) ;; *) ;; esac  — the alternatives of one item; a pattern whose
+    /// meaning POSIX leaves undefined may or may not match, but must not stop a later
+    /// well-defined alternative of the same item from selecting the item
+    CaseAlt,
     Trim(TrimKind),
 }
 
@@ -369,6 +373,27 @@ fn check_shell_pat(c: &ShellPatCase) -> Outcome {
         }
     }
     let t: Vec<char> = c.text.chars().collect();
+    if c.kind == ShellKind::CaseAlt {
+        let parsed: Vec<Result<Vec<m::Atom>, &'static str>> = c.pats.iter().map(|p| m::parse(p)).collect();
+        let defined_match = parsed.iter().any(|p| p.as_ref().is_ok_and(|a| m::full_match(a, &t)));
+        let any_undefined = parsed.iter().any(|p| p.is_err());
+        if !defined_match && any_undefined {
+            return Outcome::skip("only an undefined alternative could match");
+        }
+        let script = format!("case {} in\n({}) probe item ;;\n(*) probe none ;;\nesac\n", sh_quote(&c.text), rendered.join("|"));
+        let r = crate::vsys::run(&crate::vsys::Setup::script(&script));
+        if let Some(p) = &r.panic {
+            return Outcome::fail(format!("panic: {p}\nscript:\n{script}"));
+        }
+        let got = r.main_trace().first().map(|t| t.args.first().cloned().unwrap_or_default());
+        let expect = if defined_match { "item" } else { "none" };
+        if got.as_deref() != Some(expect) {
+            return Outcome::fail(format!("got {got:?}, expected {expect:?} (status {} stderr {:?})\nscript:\n{script}", r.status, r.stderr));
+        }
+        return Outcome::pass(true)
+            .class("case-alternatives")
+            .class_if(any_undefined, "undefined-alternative-next-to-defined-one");
+    }
     let mut parsed = vec![];
     for p in &c.pats {
         match m::parse(p) {
@@ -390,6 +415,7 @@ fn check_shell_pat(c: &ShellPatCase) -> Outcome {
             s.push_str("(*) probe none ;;\nesac\n");
             (s, chosen.map_or("none".to_string(), |i| format!("item{i}")))
         }
+        ShellKind::CaseAlt => unreachable!(),
         ShellKind::Trim(k) => {
             let op = match k {
                 TrimKind::PrefixShortest => "#",
@@ -442,7 +468,7 @@ fn check_shell_pat(c: &ShellPatCase) -> Outcome {
         return Outcome::fail(format!("got {got_s:?}, POSIX pattern notation gives {expect:?}\nscript:\n{script}"));
     }
     Outcome::pass(parsed.iter().any(|a| m::has_special(a)))
-        .class(match c.kind { ShellKind::Case => "case", ShellKind::Trim(_) => "trim" })
+        .class(match c.kind { ShellKind::Case | ShellKind::CaseAlt => "case", ShellKind::Trim(_) => "trim" })
         .class_if(c.dq, "double-quoted")
         .class_if(c.pats.iter().flatten().any(|p| p.lit), "quoted-pattern-char")
 }
@@ -459,17 +485,20 @@ fn arb_shell_char() -> impl Strategy<Value = char> {
 
 fn arb_shell_case() -> impl Strategy<Value = ShellPatCase> {
     let pc = (arb_shell_char(), prop::bool::weighted(0.25)).prop_map(|(c, lit)| PC { c, lit: lit || !safe_unquoted(c) });
+    let undefined = prop::sample::select(vec!["[[..]]", "[[:nothing:]]", "[[:digit:]-0]", "[z-a]", "[[==]]", "[a-c-e]"]).prop_map(|s: &str| m::pcs_plain(s));
     let pat = prop_oneof![
+        1 => undefined,
         3 => prop::collection::vec(pc, 0..6),
         2 => prop::collection::vec(arb_fragment(), 1..4).prop_map(|f| {
             f.into_iter().flatten().map(|p| PC { c: p.c, lit: p.lit || !safe_unquoted(p.c) }).collect::<Vec<PC>>()
         }),
     ];
     (
-        prop::collection::vec(pat, 1..3),
+        prop::collection::vec(pat, 1..4),
         prop::collection::vec(arb_shell_char(), 0..6),
         prop_oneof![
             2 => Just(ShellKind::Case),
+            2 => Just(ShellKind::CaseAlt),
             1 => Just(ShellKind::Trim(TrimKind::PrefixShortest)),
             1 => Just(ShellKind::Trim(TrimKind::PrefixLongest)),
             1 => Just(ShellKind::Trim(TrimKind::SuffixShortest)),
